@@ -1,4 +1,5 @@
 import PgVerif.Model.Actions
+import PgVerif.Proofs.ActionsLR
 /-!
 # C09 — all ways of running semantic actions give the same result
 
@@ -8,9 +9,12 @@ production's right-hand side in order (by definition of `Tree.eval` /
 `applyProd`), named matches are bound to the sub-result at their rhs index
 (`?=`: its truthiness), the alternative's own action is applied. Proved here, for
 every length: the built-in actions behind `+`, `*`, `?` and separators return the
-flat list of matched elements, an empty list, or None. The agreement of the three
-implementation routes (on-the-fly, deferred, GLR single tree) with this model is
-the correspondence leg.
+flat list of matched elements, an empty list, or None; and
+`C09_deferred_eq_onthefly`: the LR driver with a stack of action results (actions
+called during parsing) returns, for every table, input, recognizer behaviour,
+action environment and fuel, exactly the evaluation of the tree the tree-building
+driver returns. The agreement of the three implementation routes (on-the-fly,
+deferred, GLR single tree) with these models is the correspondence leg.
 -/
 namespace Pg
 
@@ -124,5 +128,18 @@ theorem C09_default_mirrors_tree (p : Nat) (named : List (Nat × Bool))
   cases Tree.evalL env cs with
   | nil => rfl
   | cons x xs => cases xs <;> rfl
+
+/-- **Deferred = on-the-fly** for the LR driver model. -/
+theorem C09_deferred_eq_onthefly (g : Grammar) (env : ActEnv) (T : Table) (inp : Input) (cf : LRCfg)
+    (fuel : Nat) :
+    runV g env T inp cf fuel (Config.init.toV env) = (parseLR g T inp cf fuel).toV env :=
+  runV_map g env T inp cf fuel Config.init
+
+/-- In particular: if the tree-building driver accepts with tree `t`, the
+on-the-fly driver returns `t.eval env`. -/
+theorem C09_onthefly_result (g : Grammar) (env : ActEnv) (T : Table) (inp : Input) (cf : LRCfg)
+    (fuel : Nat) (t : Tree) (e p : Nat) (h : parseLR g T inp cf fuel = .ok t e p) :
+    runV g env T inp cf fuel (Config.init.toV env) = .ok (t.eval env) e p := by
+  rw [C09_deferred_eq_onthefly, h]; rfl
 
 end Pg
